@@ -1,8 +1,8 @@
 #!/bin/bash
 # re-runs every seeded change against its property's check (and extra checks named in meta.json "also"), writes seeded/RESULTS.tsv
 cd /verif
-: > seeded/RESULTS.tsv
-for d in seeded/*/; do
+[ -n "$SEEDS" ] || : > seeded/RESULTS.tsv
+for d in ${SEEDS:-seeded/*/}; do
   n=$(basename $d)
   [ -f $d/patch.diff ] || continue
   props=$(python3 -c "import json;m=json.load(open('$d/meta.json'));print(' '.join([m['property']]+m.get('also',[])))")
